@@ -22,7 +22,7 @@
    compared with the model after every atomic operation.  sync.RWMutex and sync.Mutex stay trusted. *)
 From Coq Require Import String List Bool.
 From Coq Require Import ZArith.
-From Verif Require Import Model.Lockset Gen.Access Proof.LocksetP Proof.LocksetI Model.RBMutex Proof.RBMutexP.
+From Verif Require Import Model.Lockset Gen.Access Proof.LocksetP Proof.LocksetI Model.RBMutex Proof.RBMutexP Model.RBShape Gen.Consts Proof.RBShapeP.
 Import ListNotations.
 
 (* for ANY table: discipline excludes race states *)
@@ -94,3 +94,31 @@ Theorem c19_writer_is_alone : forall pre sched n t, (1 <= n)%Z ->
   rm_writes (fold_left rm_act sched s) = (rm_writes s + own_writes t sched)%Z.
 Proof. exact writer_exclusive_reach. Qed.
 Print Assumptions c19_writer_is_alone.
+
+(* ---- tie by translation as well: the facts the exclusion argument rests on are read off internal/rbmutex.go on
+   every run (c_rb_shape: Lock takes rw first, clears the bias before the scan, scans from slot 0 through all
+   slots; fastRlock re-checks the bias after its CAS and rolls back); the lock with the scraped shape is exclusive ... *)
+Theorem c19_rbmutex_source_shape : shape_of c_rb_shape = good_shape.
+Proof. exact scraped_shape. Qed.
+Print Assumptions c19_rbmutex_source_shape.
+
+Theorem c19_rbmutex_as_scraped_excludes : forall sched n w t, (1 <= n)%Z ->
+  let r := fold_left (rb_act_g (shape_of c_rb_shape)) sched (newRB n) in
+  writing (tpc r w) = true -> reading (tpc r t) = false /\ (writing (tpc r t) = true -> t = w).
+Proof. exact scraped_excludes. Qed.
+Print Assumptions c19_rbmutex_as_scraped_excludes.
+
+(* ... and each fact is needed: change any one and a concrete schedule overlaps a writer with a reader or a writer *)
+Theorem c19_rbmutex_shape_facts_needed :
+  overlap (run (mkShape true true 0 true false true) 1
+            ([(1, 0, 0)] ++ [(1, 4, 0); (1, 4, 0)] ++ [(2, 2, 0)] ++ steps 2 4 ++ steps 1 2))%Z 2 1 = true /\
+  overlap (run (mkShape true false 0 true true true) 1
+            ([(2, 2, 0)] ++ steps 2 3 ++ [(1, 0, 0)] ++ [(1, 4, 0); (1, 4, 0); (1, 4, 0); (1, 4, 0)] ++ steps 2 1))%Z 2 1 = true /\
+  overlap (run (mkShape true true 1 true true true) 2
+            ([(1, 0, 0)] ++ [(1, 4, 0); (1, 4, 0); (1, 4, 0); (1, 4, 0)] ++ [(2, 2, 0)] ++ steps 2 4))%Z 2 1 = true /\
+  overlap (run (mkShape true true 0 false true true) 2
+            ([(1, 0, 0)] ++ [(1, 4, 1); (1, 4, 0); (1, 4, 0); (1, 4, 0)] ++ [(2, 2, 0)] ++ steps 2 4))%Z 2 1 = true /\
+  overlap (run (mkShape false true 0 true true true) 1
+            ([(1, 2, 0)] ++ steps 1 4 ++ [(2, 2, 0)] ++ steps 2 2))%Z 1 2 = true.
+Proof. exact (conj no_recheck_refuted (conj clear_after_scan_refuted (conj scan_from_one_refuted (conj scan_short_refuted no_rw_refuted)))). Qed.
+Print Assumptions c19_rbmutex_shape_facts_needed.
